@@ -58,3 +58,14 @@ def writes_in_closure(params_dict):
         params_dict.eq_params[k] = 0
     inner("a")
     return params_dict
+
+
+def merges_in_place(batch_dict, keys):
+    merged = batch_dict
+    merged |= {k: None for k in keys}      # dict |= mutates the caller's dictionary
+    return merged
+
+
+def pure_merge(batch_dict, keys):
+    merged = batch_dict | {k: None for k in keys}
+    return merged
